@@ -233,3 +233,29 @@ def resolve_local(fn: ast.AST, e: ast.AST) -> ast.AST:
 def polarity_through_locals(fn: ast.AST, test: ast.AST, matcher: Callable[[ast.AST], bool]) -> Optional[str]:
     """polarity() where a single-assignment local holding the matched expression counts as that expression."""
     return polarity(test, lambda x: matcher(resolve_local(fn, x)))
+
+
+def locals_where(fn: ast.AST, pred: Callable[[ast.AST], bool], include_nested: bool = False) -> List[str]:
+    """Names of locals of fn that have at least one plain assignment ``name = value`` with pred(value) - the way to find a
+    variable by its *role* (how it is defined) instead of by its spelling.  In source order, without duplicates."""
+    out: List[str] = []
+    for n in source.walk_own(fn, include_nested=include_nested):
+        tgts = []
+        if isinstance(n, ast.Assign):
+            tgts = [(t, n.value) for t in n.targets]
+        elif isinstance(n, ast.AnnAssign) and n.value is not None:
+            tgts = [(n.target, n.value)]
+        for t, v in tgts:
+            if isinstance(t, ast.Name) and t.id not in out:
+                try:
+                    if pred(v):
+                        out.append(t.id)
+                except Exception:
+                    pass
+    return out
+
+
+def role(fn: ast.AST, pred: Callable[[ast.AST], bool], default: str) -> str:
+    """The unique local satisfying pred, else ``default`` (the spelling on the pinned tree)."""
+    names = locals_where(fn, pred)
+    return names[0] if len(names) >= 1 else default
